@@ -324,6 +324,47 @@ def edge_histories(exe):
                     do("collect 0")
                     im.close()
                     out.append(("edge:%s:%s:%s:%s" % (rootkind, holder, "-".join(chain) or "direct", lname), ops))
+    # an array with MORE slots than the heap has cells: the leading slots all alias one container that is reachable only through
+    # the array, the trailing slots hold the only references to other cells (a marker with a work list sized by the number of
+    # cells, or one that counts visits, drops the tail)
+    for (heap, dims) in ((24, "60"), (20, "8 8"), (32, "5 5 4")):
+        nslots = 1
+        for d in dims.split():
+            nslots *= int(d)
+        im = Impl(exe)
+        ops = []
+        def do(op):
+            ops.append(op)
+            return parse_state(im.send(op))
+        def alloc(op, st0):
+            st1 = do(op)
+            if st0 is None or st1 is None:
+                return None, st1
+            a0 = {i for i, c in enumerate(st0["cells"]) if c[2] != "-"}
+            d = sorted({i for i, c in enumerate(st1["cells"]) if c[2] != "-"} - a0)
+            return (d[0] if d else None), st1
+        st = do("new %d" % heap)
+        inner, st = alloc("alloc int 5", st)
+        shared, st = alloc("alloc vec 2", st)
+        st = do("setvec %d 1 %d" % (shared, inner))
+        leaves = []
+        for g in range(4):
+            l, st = alloc("alloc str %02x%02x" % (0x61 + g, 0x61 + g), st)
+            leaves.append(l)
+        arr, st = alloc("alloc arr " + dims, st)
+        if None not in (inner, shared, arr) and None not in leaves:
+            for e in range(nslots - len(leaves)):
+                do("setarr %d %d %d" % (arr, e, shared))
+            for g, l in enumerate(leaves):
+                do("setarr %d %d %d" % (arr, nslots - len(leaves) + g, l))
+            do("alloc int 901"); do("alloc int 902")
+            do("collect 0 a:%d" % arr)
+            for g in range(5):
+                do("alloc str 7a7a")
+            do("collect 0 a:%d" % arr)
+            do("collect 0")
+            out.append(("edge:wide-aliasing-array:%d:%s" % (heap, dims.replace(" ", "x")), ops))
+        im.close()
     return out
 
 def first_divergence(a, b):
